@@ -95,8 +95,35 @@ def run_icex(ctx, args, timeout=1200, race=False, env_extra=None, allow_fail=Fal
     except subprocess.TimeoutExpired:
         raise Fault("executor timed out: icex %s" % " ".join(map(str, args)))
     if p.returncode != 0 and not allow_fail:
-        raise Fault("executor failed (rc=%d): icex %s\n%s" % (p.returncode, " ".join(map(str, args)), (p.stdout + p.stderr)[-3000:]))
+        err = p.stdout + p.stderr
+        crash = crash_in_ice(err)
+        if crash:
+            # the executor process died inside ice (e.g. "fatal error: concurrent map writes", a panic on a
+            # goroutine no recover() can reach): that abnormal exit is itself the observation (DESIGN 4.2)
+            record_violation(ctx, {ctx.prop}, "executor process crashed inside ice: " + crash[:1200],
+                             dict(kind="crash", property=[ctx.prop], cmd=[str(a) for a in args], stderr=err[-6000:]))
+            raise Crashed(crash)
+        raise Fault("executor failed (rc=%d): icex %s\n%s" % (p.returncode, " ".join(map(str, args)), err[-3000:]))
     return p
+
+
+class Crashed(Exception):
+    """the executor died inside ice; a violation has been recorded"""
+
+
+def crash_in_ice(err):
+    """first lines of a Go crash report whose stack has an ice frame (not a harness-only panic)"""
+    m = re.search(r"^(fatal error: .*|panic: .*)$", err, re.M)
+    if not m:
+        return None
+    tail = err[m.start():]
+    if "github.com/blugelabs/ice/v2." not in tail:
+        return None
+    # a panic raised by the harness itself (scenario refers to unknown handle, marshal error) is a machinery fault
+    if m.group(1).startswith("panic: scenario") or m.group(1).startswith("panic: trace") or m.group(1).startswith("panic: unknown op"):
+        return None
+    frames = [l.strip() for l in tail.splitlines() if "blugelabs/ice/v2." in l][:6]
+    return m.group(1) + " | " + " <- ".join(frames)
 
 
 # ----------------------------------------------------------------------------------------
@@ -351,7 +378,11 @@ def handle_trace_viols(ctx, found, max_report=5):
 def run_family(ctx, family, n, perfile=20, seed_off=0, race=False, env_extra=None):
     """Go random driver -> scenarios -> real code -> traces -> TLC."""
     out = ctx.sub("fam-%s-%d" % (family, seed_off))
-    run_icex(ctx, ["genrun", family, ctx.seed * 1000 + seed_off, n, out, perfile], race=race, env_extra=env_extra)
+    try:
+        run_icex(ctx, ["genrun", family, ctx.seed * 1000 + seed_off, n, out, perfile], race=race, env_extra=env_extra)
+    except Crashed:
+        ctx.log("%s: executor crashed inside ice (recorded as violation); its partial traces are not validated" % family)
+        return []
     return finish_dir(ctx, out, family)
 
 
@@ -380,11 +411,15 @@ def run_scenarios(ctx, scs, label, perfile=20, shards=1):
         with open(src, "w") as f:
             json.dump(part, f)
         jobs.append(["runfile", src, out, "%s%d" % (label, k), perfile])
-    if shards == 1:
-        run_icex(ctx, jobs[0])
-    else:
-        with cf.ThreadPoolExecutor(max_workers=NCPU) as ex:
-            list(ex.map(lambda j: run_icex(ctx, j), jobs))
+    try:
+        if shards == 1:
+            run_icex(ctx, jobs[0])
+        else:
+            with cf.ThreadPoolExecutor(max_workers=NCPU) as ex:
+                list(ex.map(lambda j: run_icex(ctx, j), jobs))
+    except Crashed:
+        ctx.log("%s: executor crashed inside ice (recorded as violation); its partial traces are not validated" % label)
+        return []
     return finish_dir(ctx, out, label)
 
 
